@@ -29,7 +29,7 @@ Definition dir_locale (cfg : ling_cfg) (path : list N) : option language :=
 (* the base name of a .po file, unless it has an encoding part *)
 Definition base_locale (cfg : ling_cfg) (path : list N) : option language :=
   if lg_endswith path s_dot_po then
-    match parse_language (fst (splitext (basename path))) with
+    match parse_language (po_stem path) with
     | Ok l => if is_some (l_enc l) then None else normalised cfg l
     | _ => None
     end
@@ -137,15 +137,11 @@ Proof.
   rewrite strip_eq. reflexivity.
 Qed.
 
-Definition ext_is_po (path : list N) : bool := lg_eqb (snd (splitext (basename path))) s_dot_po.
-
 Lemma lang_from_basename_spec cfg path : lg_endswith path s_dot_po = true ->
-  lang_from_basename cfg path = if ext_is_po path then Ok (base_locale cfg path) else Crash CAssertion.
+  lang_from_basename cfg path = Ok (base_locale cfg path).
 Proof.
-  intros Hpo. unfold lang_from_basename, base_locale, ext_is_po, normalised. rewrite Hpo.
-  destruct (splitext (basename path)) as [root ext]. cbn [fst snd].
-  destruct (lg_eqb ext s_dot_po); cbn [negb]; [|reflexivity].
-  destruct (parse_language root) as [l|e|k] eqn:Ep; [|reflexivity|exfalso; exact (parse_no_crash _ _ Ep)].
+  intros Hpo. unfold lang_from_basename, base_locale, normalised. rewrite Hpo.
+  destruct (parse_language (po_stem path)) as [l|e|k] eqn:Ep; [|reflexivity|exfalso; exact (parse_no_crash _ _ Ep)].
   destruct (is_some (l_enc l)) eqn:Ee; [reflexivity|].
   destruct (fix_codes cfg l) as [[l1 b]|e|k] eqn:Ef; [|reflexivity|exfalso; exact (fix_codes_no_crash _ _ _ Ef)].
   rewrite strip_noenc; [reflexivity|]. rewrite (fix_codes_enc _ _ _ _ Ef). destruct (l_enc l); [discriminate|reflexivity].
@@ -154,25 +150,15 @@ Qed.
 Lemma base_locale_notpo cfg path : lg_endswith path s_dot_po = false -> base_locale cfg path = None.
 Proof. unfold base_locale. intros ->. reflexivity. Qed.
 
-(* the only way the phase can fail: `assert ext == '.po'` *)
-Definition assertion_fails (cfg : ling_cfg) (opt : option language) (path : list N) : Prop :=
-  opt = None /\ dir_locale cfg path = None /\ lg_endswith path s_dot_po = true /\ ext_is_po path = false.
-
-Lemma external_language_spec cfg opt path :
-  (external_language cfg opt path = Ok (external_source cfg opt path) /\ ~ assertion_fails cfg opt path) \/
-  (external_language cfg opt path = Crash CAssertion /\ assertion_fails cfg opt path).
+Lemma external_language_spec cfg opt path : external_language cfg opt path = Ok (external_source cfg opt path).
 Proof.
-  unfold external_language, external_source, assertion_fails.
-  destruct opt as [l|].
-  { left. split; [reflexivity|]. intros [H _]; discriminate. }
+  unfold external_language, external_source.
+  destruct opt as [l|]; [reflexivity|].
   rewrite lang_from_dir_spec. cbn [obind].
-  destruct (dir_locale cfg path) as [l|].
-  { left. split; [reflexivity|]. intros (_ & H & _); discriminate. }
+  destruct (dir_locale cfg path) as [l|]; [reflexivity|].
   destruct (lg_endswith path s_dot_po) eqn:Hpo.
-  - rewrite (lang_from_basename_spec _ _ Hpo). destruct (ext_is_po path) eqn:Hx.
-    + left. cbn [obind]. split; [destruct (base_locale cfg path); reflexivity|]. intros (_ & _ & _ & H); discriminate.
-    + right. cbn [obind]. auto.
-  - left. rewrite (base_locale_notpo _ _ Hpo). split; [reflexivity|]. intros (_ & _ & H & _); discriminate.
+  - rewrite (lang_from_basename_spec _ _ Hpo). cbn [obind]. destruct (base_locale cfg path); reflexivity.
+  - rewrite (base_locale_notpo _ _ Hpo). reflexivity.
 Qed.
 
 (* ------------------------------------------------------------------ *)
@@ -397,7 +383,7 @@ Qed.
 (* the remaining phases *)
 
 Definition dropped (path : list N) (q : bool) (fr : field_result) : bool :=
-  f_entered fr && negb q && path_names path (f_lang fr).
+  f_entered fr && match f_lang fr with Some m => negb q && path_names path m | None => false end.
 
 Lemma libreoffice_drop_spec path ext fr :
   libreoffice_drop path ext fr =
@@ -478,7 +464,6 @@ Lemma check_language_decompose cfg opt path metas pls pcs ds lang :
   check_language cfg opt path metas pls pcs false = Ok (ds, lang) ->
   exists d0 fr d2 cur1 d3 cur2,
     Forall (fun d => d = DDupLanguage) d0 /\
-    ~ assertion_fails cfg opt path /\
     field_language cfg (single_value metas) = Ok fr /\
     merge_field (libreoffice_drop path (external_source cfg opt path) fr) (f_lang fr) = (d2, cur1) /\
     poedit_phase cfg pls pcs cur1 = Ok (d3, cur2) /\
@@ -487,7 +472,7 @@ Lemma check_language_decompose cfg opt path metas pls pcs ds lang :
 Proof.
   unfold check_language, single_value. pose proof (field_value_dups metas) as Hd0.
   destruct (field_value metas) as [[d0 meta] dd]. cbn [fst snd] in *.
-  destruct (external_language_spec cfg opt path) as [[He Hna]|[He _]]; rewrite He; cbn [obind]; [|discriminate].
+  rewrite external_language_spec; cbn [obind].
   destruct (field_language cfg meta) as [fr|e|k]; cbn [obind]; try discriminate.
   destruct (merge_field (libreoffice_drop path (external_source cfg opt path) fr) (f_lang fr)) as [d2 cur1] eqn:Em.
   destruct (poedit_phase cfg pls pcs cur1) as [[d3 cur2]|e|k] eqn:Epp; cbn [obind]; try discriminate.
@@ -517,10 +502,10 @@ Theorem disparity_iff cfg opt path metas pls pcs ds lang :
   In (DDisparity l src m SrcLanguageField) ds <->
     exists q, external_source cfg opt path = Some (l, src, q) /\
       field_loc cfg metas = Some m /\ l <> m /\
-      (q = false -> path_names path (Some m) = false).
+      (q = false -> path_names path m = false).
 Proof.
   intros H l src m.
-  destruct (check_language_decompose _ _ _ _ _ _ _ _ H) as (d0 & fr & d2 & cur1 & d3 & cur2 & Hd0 & _ & Hf & Hm & Hp & -> & _).
+  destruct (check_language_decompose _ _ _ _ _ _ _ _ H) as (d0 & fr & d2 & cur1 & d3 & cur2 & Hd0 & Hf & Hm & Hp & -> & _).
   destruct (field_language_single _ _ _ Hf) as (Hfl & Hent & Hfd).
   destruct (merge_field_spec _ _ _ _ Hm) as [Hd2 _].
   destruct (poedit_phase_spec _ _ _ _ _ _ Hp) as [Hd3 _].
@@ -542,7 +527,7 @@ Proof.
     exists l, src, m. rewrite <- Hfl in Hm'. repeat split; auto.
     rewrite libreoffice_drop_spec, Hext.
     assert (Ed : dropped path q fr = false).
-    { unfold dropped. rewrite Hm'. destruct q; [rewrite andb_false_r; reflexivity|]. rewrite (Hq eq_refl), andb_false_r. reflexivity. }
+    { unfold dropped. rewrite Hm'. destruct q; cbn [negb andb]; [apply andb_false_r|]. rewrite (Hq eq_refl). apply andb_false_r. }
     rewrite Ed. reflexivity.
 Qed.
 
@@ -552,7 +537,7 @@ Theorem invalid_language_iff cfg opt path metas pls pcs ds lang :
   forall o, (exists k, In (DInvalidLanguage o k) ds) <-> single_value metas = Some o /\ o <> [] /\ ~ canonical cfg o.
 Proof.
   intros H o.
-  destruct (check_language_decompose _ _ _ _ _ _ _ _ H) as (d0 & fr & d2 & cur1 & d3 & cur2 & Hd0 & _ & Hf & Hm & Hp & -> & _).
+  destruct (check_language_decompose _ _ _ _ _ _ _ _ H) as (d0 & fr & d2 & cur1 & d3 & cur2 & Hd0 & Hf & Hm & Hp & -> & _).
   destruct (merge_field_spec _ _ _ _ Hm) as [Hd2 _].
   destruct (poedit_phase_spec _ _ _ _ _ _ Hp) as [Hd3 _].
   destruct (final_diags_spec (single_value metas) (snd (field_value metas)) cur2) as [Hfin _].
@@ -588,7 +573,7 @@ Theorem invalid_language_correction cfg opt path metas pls pcs ds lang :
                    fix_codes cfg l = Ok (l', true) /\ k = strip l')).
 Proof.
   intros H o k.
-  destruct (check_language_decompose _ _ _ _ _ _ _ _ H) as (d0 & fr & d2 & cur1 & d3 & cur2 & Hd0 & _ & Hf & Hm & Hp & -> & _).
+  destruct (check_language_decompose _ _ _ _ _ _ _ _ H) as (d0 & fr & d2 & cur1 & d3 & cur2 & Hd0 & Hf & Hm & Hp & -> & _).
   destruct (merge_field_spec _ _ _ _ Hm) as [Hd2 _].
   destruct (poedit_phase_spec _ _ _ _ _ _ Hp) as [Hd3 _].
   destruct (final_diags_spec (single_value metas) (snd (field_value metas)) cur2) as [Hfin _].
@@ -637,7 +622,7 @@ Theorem language_sources cfg opt path metas pls pcs ds lang :
     (In DUnable ds <-> lang = None).
 Proof.
   intros H.
-  destruct (check_language_decompose _ _ _ _ _ _ _ _ H) as (d0 & fr & d2 & cur1 & d3 & cur2 & Hd0 & _ & Hf & Hm & Hp & -> & ->).
+  destruct (check_language_decompose _ _ _ _ _ _ _ _ H) as (d0 & fr & d2 & cur1 & d3 & cur2 & Hd0 & Hf & Hm & Hp & -> & ->).
   destruct (field_language_single _ _ _ Hf) as (Hfl & _ & Hfd).
   destruct (merge_field_spec _ _ _ _ Hm) as [Hd2 Hc1].
   destruct (poedit_phase_spec _ _ _ _ _ _ Hp) as [Hd3 Hc2].
@@ -659,26 +644,20 @@ Proof.
     + intros E. right; right; right; right. apply Hun. destruct cur2; [discriminate|reflexivity].
 Qed.
 
-Definition s_slash_None : list N := [47; 78; 111; 110; 101; 47].     (* "/None/" *)
-
-Lemma path_names_None path : path_names path None = lg_infix s_slash_None path.
-Proof. unfold path_names. cbn. apply orb_diag. Qed.
-
-(* unable-to-determine-language iff no source names a language -- for a path without a component called "None" *)
+(* unable-to-determine-language iff no source names a language *)
 Theorem unable_iff cfg opt path metas pls pcs ds lang :
   check_language cfg opt path metas pls pcs false = Ok (ds, lang) ->
-  lg_infix s_slash_None path = false ->
   (In DUnable ds <->
      external_source cfg opt path = None /\ field_loc cfg metas = None /\ poedit_language cfg pls pcs = None).
 Proof.
-  intros H Hnone. destruct (language_sources _ _ _ _ _ _ _ _ H) as (fr & Hf & Hl & Hu).
+  intros H. destruct (language_sources _ _ _ _ _ _ _ _ H) as (fr & Hf & Hl & Hu).
   destruct (field_language_single _ _ _ Hf) as (Hfl & _ & _).
   rewrite Hu, Hl. unfold effective_external.
   destruct (external_source cfg opt path) as [[[l s] q]|].
   - destruct (dropped path q fr) eqn:Ed.
     + destruct (field_loc cfg metas) as [m|] eqn:Em.
       * split; [discriminate|]. intros (E & _); discriminate.
-      * exfalso. unfold dropped in Ed. rewrite Hfl, path_names_None, Hnone, andb_false_r in Ed. discriminate.
+      * exfalso. unfold dropped in Ed. rewrite Hfl, andb_false_r in Ed. discriminate.
     + split; [discriminate|]. intros (E & _); discriminate.
   - destruct (field_loc cfg metas) as [m|].
     + split; [discriminate|]. intros (_ & E & _); discriminate.
@@ -716,7 +695,7 @@ Theorem check_language_failures cfg opt path metas pls pcs tmpl :
 Proof.
   intros e. unfold check_language. destruct (field_value metas) as [[d0 meta] dd].
   destruct tmpl; [discriminate|].
-  destruct (external_language_spec cfg opt path) as [[He _]|[He _]]; rewrite He; cbn [obind]; [|discriminate].
+  rewrite external_language_spec; cbn [obind].
   assert (Hf : forall e0, field_language cfg meta <> Err e0).
   { intros e0. unfold field_language. destruct meta as [[|c o0]|]; try discriminate.
     destruct (parse_language (c :: o0)) as [l|e1|k]; cbn [obind].
